@@ -511,6 +511,40 @@ fn udp_accounting_part(rep: &Arc<Reporter>, args: &Args) {
     }
 }
 
+/// The metrics listener under every combination of listen protocols: /metrics answers 200 with the documented series
+/// and /health-check answers 200 whichever client-facing protocols are enabled.
+fn listener_configs_part(rep: &Arc<Reporter>, args: &Args) {
+    let rt = env::rt_multi(2);
+    rt.block_on(async {
+        for (k, protocols) in [(true, true, false), (false, true, false), (true, false, false), (false, true, true), (false, false, true)].into_iter().enumerate() {
+            let dir = env::work_dir(&args.root, &format!("c16cfg{}", k));
+            let hosts = Hosts { main: vec![("main.test".into(), vec![])], ..Default::default() };
+            let mport = free_port(false);
+            let maddr: SocketAddr = format!("127.0.0.1:{}", mport).parse().unwrap();
+            let ep = start_endpoint(&dir, "127.0.0.1", &hosts, None, vec![], protocols, move |b| {
+                b.metrics(trusttunnel::settings::MetricsSettings::builder().listen_address(maddr).unwrap().build().unwrap())
+            }).await;
+            // the metrics listener comes up with the endpoint: wait for it to accept (a wall-clock matter)
+            let mut up = false;
+            for _ in 0..300 { if let Ok(s) = TcpStream::connect(maddr).await { drop(s); up = true; break; } tokio::time::sleep(Duration::from_millis(10)).await; }
+            let name = format!("http1={} http2={} quic={}", protocols.0, protocols.1, protocols.2);
+            rep.evals(1);
+            rep.distinct(common::fnv(format!("metrics-cfg|{}", name).as_bytes()));
+            if !up { rep.inconclusive("metrics listener did not accept within 3 s"); ep.task.abort(); continue; }
+            let m = http_get(maddr, "/metrics").await;
+            let hc = http_get(maddr, "/health-check").await;
+            let w = json!({"kind":"metrics-listener","listen_protocols":name,"metrics_status":m.as_ref().map(|x| x.0),"metrics_has_client_sessions":m.as_ref().map(|x| x.1.contains("client_sessions")),"health_check_status":hc.as_ref().map(|x| x.0)});
+            match (&m, &hc) {
+                (None, _) | (_, None) => rep.violation(&format!("the metrics listener does not answer with listen protocols {}", if protocols.0 { "including HTTP/1.1" } else { "without HTTP/1.1" }), w),
+                // (series with label sets that were never touched are legitimately absent from the text: only the status is judged here)
+                (Some((200, _)), Some((200, _))) => rep.tally("metrics listener answers /metrics and /health-check under this set of listen protocols", 1),
+                _ => rep.violation("GET /metrics or /health-check not answered 200", w),
+            }
+            ep.task.abort();
+        }
+    });
+}
+
 pub fn run(args: &Args) -> i32 {
     let rep = Arc::new(Reporter::new(
         args,
@@ -523,6 +557,7 @@ pub fn run(args: &Args) -> i32 {
     rep.assume("label values are compared case-insensitively (HTTP1 in code, http1 in METRICS.md)");
     rep.assume("ordinary histories run under long idle timeouts (120 s) so nothing expires on its own; expiry is exercised by dedicated histories with T_tcp = 2.5 s / T_udp = 2 s and a wait of 2T + 500 ms");
     udp_accounting_part(&rep, args);
+    listener_configs_part(&rep, args);
     let dir = env::work_dir(&args.root, "c16");
     let n = args.qt(24u64, 600u64);
     let seed = args.seed;
